@@ -38,6 +38,9 @@ type Family struct {
 	// NoSecondRun switches the non-initial-state differential off; SecondEvery is its stride (default 7)
 	NoSecondRun bool
 	SecondEvery int
+	// SameAcrossSchedules: every execution of an item (every schedule within the bound) must report the same hops and
+	// the same success/failure as the item's default schedule
+	SameAcrossSchedules bool
 
 	mu    sync.Mutex
 	cache map[string][]Item
@@ -104,6 +107,7 @@ func (f *Family) Run(tier string, idx int, r *core.ScnResult) {
 	}
 	r.Nontrivial = f.Nontrivial == nil || f.Nontrivial(it)
 	var last *Result
+	ref, haveRef := "", false
 	e := &vsched.Explorer{Bound: bound}
 	debugDiv := os.Getenv("VERIF_DEBUG_DIVERGE") != ""
 	type rec struct {
@@ -159,6 +163,14 @@ func (f *Family) Run(tier string, idx int, r *core.ScnResult) {
 			issues = append(issues, *fi)
 		} else {
 			issues = f.Check(it, last)
+			if f.SameAcrossSchedules {
+				k := last.Summary0()
+				if !haveRef {
+					ref, haveRef = k, true
+				} else if k != ref {
+					issues = append(issues, Issue{Key: "schedule-dependent", Detail: fmt.Sprintf("default schedule: %s ; this schedule: %s", ref, k)})
+				}
+			}
 		}
 		for _, is := range issues {
 			r.Fail(core.Failure{Key: f.ID + " " + it.Class + "/" + is.Key, What: is.Detail, Scenario: core.JSON(it), Choices: x.Choices(), Bound: cost})
@@ -268,6 +280,12 @@ func (f *Family) Replay(scn json.RawMessage, choices []int) (string, bool) {
 		issues = append(issues, *fi)
 	} else {
 		issues = f.Check(&it, res)
+		if f.SameAcrossSchedules && len(choices) > 0 {
+			def := f.runItem(&it, nil, nil, false)
+			if a, b := def.Summary0(), res.Summary0(); a != b {
+				issues = append(issues, Issue{Key: "schedule-dependent", Detail: fmt.Sprintf("default schedule: %s ; this schedule: %s", a, b)})
+			}
+		}
 	}
 	for _, is := range issues {
 		s += fmt.Sprintf("ORACLE FAILED: %s %s/%s: %s\n", f.ID, it.Class, is.Key, is.Detail)
